@@ -21,10 +21,10 @@ def baseCfg (unw unr nf : List Str) : Cfg :=
     isBuiltin := fun n => Generated.builtins.contains (String.ofList n),
     found := fun n => !nf.contains n }
 
-/-- did descriptor exhaustion make a `pipe` call of the model fail on this launch -/
-def modelPipeFails (cfg : Cfg) (cmds : List Command) (capture bg : Bool) (t : Table) (np : Nat) : Bool :=
+/-- what descriptor exhaustion does to this launch according to the model -/
+def modelPipeFails (cfg : Cfg) (cmds : List Command) (capture bg : Bool) (t : Table) (np : Nat) : SpecFd.PipeFailure :=
   let r := runPipeline cfg cmds capture bg t np
-  (match r.outcome with | .failed => !(bg ∧ capture) | _ => false) || r.fg.contains .bogus
+  { upfront := (match r.outcome with | .failed => !(bg ∧ capture) | _ => false), stages := r.hsFailed }
 
 structure Out where
   m : String
@@ -69,7 +69,7 @@ def classifyGo (cfg : Cfg) (unw : List Str) : List Item → World → World → 
   | [], _, _ => "-"
   | it :: rest, wm, ws =>
     let wm' := runItem modelLauncher cfg wm it
-    let ws' := runItem (SpecFd.specLauncher (fun _ _ _ _ _ _ => false)) cfg ws it
+    let ws' := runItem (SpecFd.specLauncher modelPipeFails) cfg ws it
     if sameWorld wm' ws' then classifyGo cfg unw rest wm' ws' else kindOfItem cfg unw it
 
 def parseFiles (s : String) : List (Str × List Str) :=
